@@ -181,6 +181,7 @@ def run(ck):
     logmessage(ck)
     listdiscipline(ck)
     whole_pipeline(ck)
+    handoff_leaves_message(ck)
 
 
 def loop_direction(ck, fn, loop):
@@ -766,3 +767,26 @@ def whole_pipeline(ck):
         ck.ob("C01-O10", sitestr(c), {"m_handlers", "m_scoped"} <= got, "Pipeline's copy constructor copies the handler list and the scoped flag" if {"m_handlers", "m_scoped"} <= got else
               "Pipeline's user-written copy constructor leaves out %s" % sorted({"m_handlers", "m_scoped"} - got), key="Pipeline(copy)|members")
     ck.require(n_inst >= 1, "no function receiving a Pipeline by value found (operator<<(Logger *, const Pipeline &) confirmed by hand)")
+
+
+def handoff_leaves_message(ck):
+    """C01-O11: OwnThreadHandler can be an inner node of a tree (docs/api/pipelines.md): the handlers behind it in the parent pipeline go on with the same
+    message object. Handing the message to the logger thread must therefore copy it; moving from it leaves the caller's message without its
+    formatted text and attributes, and a sink that follows prints the raw message."""
+    F = ck.facts
+    ck.rule("C01-O11", "OwnThreadHandler::process does not move from (or otherwise modify) the message it is given: the asynchronous hand-off works on a copy")
+    insts = [f for f in F.fn_all("QtLogger::OwnThreadHandler::process") if f.body is not None]
+    ck.require(insts, "OwnThreadHandler::process not found")
+    for f in insts:
+        ck.touch(f)
+        if not f.params:
+            continue
+        d = f.params[0]["decl"]
+        moved = [c for c in f.calls() if strip_tmpl(c.get("callee") or "") in ("std::move", "std::forward", "std::exchange", "std::swap", "qSwap", "qExchange") and any(is_ref_to(skip_copies(a), d) for a in c.get("args", []))]
+        mutated = [c for c in f.calls() if c.get("ck") == "member" and is_ref_to(skip_copies(c.get("obj") or {}), d) and
+                   strip_tmpl(c.get("callee") or "").split("::")[-1] in ("setFormattedMessage", "setAttributes", "updateAttributes", "setAttribute", "removeAttribute", "swap", "clear")]
+        tag = strip_tmpl(f.cls or "").split("::")[-1] + ("<" + (f.cls or "").split("<", 1)[1].rstrip(">").split("::")[-1] + ">" if "<" in (f.cls or "") else "")
+        bad = moved + mutated
+        ck.ob("C01-O11", sitestr(f, bad[0]) if bad else sitestr(f), not bad, "%s::process leaves the caller's message untouched (the event carries a copy)" % tag if not bad else
+              "%s::process hands the caller's message over with %s: the message the parent pipeline goes on with has lost its formatted text and attributes, a sink behind this handler prints the raw message" %
+              (tag, describe(bad[0])[:50]), key="OwnThreadHandler::process|message-moved")
